@@ -114,7 +114,7 @@ def expansion_cases(rng_seed_fn, n_cases, tier):
         if which == "gc":
             L = rng.choice([0, 1, 2, 3, 4, 4, 5, 5, 6, maxL])
         else:
-            L = rng.choice([2, 3, 4, 4, 5, 5, 6, maxL]) if i % 15 else 1
+            L = rng.choice([2, 3, 4, 4, 5, 5, 6, maxL]) if i % 15 != 1 else 1
         s = F(rng.choice([1, 2, 3, 1, 3, 5]), rng.choice([1, 2, 1, 3]))
         sigma2 = s * s
         square = True
@@ -190,7 +190,7 @@ def t_geometric(rng):
     x0 = rng.randint(0, 2)
     c = rng.randint(1, 3)
     text = f"stop = 0\nx = {x0}\nwhile stop == 0:\n    stop = Bernoulli({fs(p)})\n    x = x + {c}\nend\n"
-    return dict(text=text, monoms=[({"x": 1}, x0)], feats=["guarded-geometric"])
+    return dict(text=text, monoms=[({"x": 1}, x0)], feats=["guarded-geometric"], max_order=3)
 
 
 def t_mult(rng):
@@ -263,7 +263,7 @@ def t_underscore(rng):
     p = _p(rng)
     x0 = rng.randint(1, 3)
     text = f"x_1 = {x0}\nwhile true:\n    x_1 = x_1 + 1 {{{fs(p)}}} x_1 + 2\nend\n"
-    return dict(text=text, monoms=[({"x_1": 1}, x0)], feats=["underscore-name"])
+    return dict(text=text, monoms=[({"x_1": 1}, x0)], feats=["underscore-name"], cli=False)
 
 
 def t_mixed_draws(rng):
@@ -288,8 +288,8 @@ def t_shift_scale(rng):
 
 def t_simult(rng):
     p = _p(rng)
-    text = f"x = 1\ny = 2\nwhile true:\n    x, y = y, x + 1 {{{fs(p)}}} x\nend\n"
-    return dict(text=text, monoms=[({"x": 1}, 1), ({"y": 1}, 1)], feats=["simultaneous"])
+    text = f"x = 1\ny = 2\nwhile true:\n    x, y = x + y, y + 1 {{{fs(p)}}} y\nend\n"
+    return dict(text=text, monoms=[({"x": 1}, 1), ({"y": 1}, 2)], feats=["simultaneous"], max_order=3)
 
 
 TEMPLATES = [t_walk_pos, t_walk3, t_walk_sym, t_bern_sum, t_du_sum, t_geometric, t_mult, t_categorical, t_dependent,
@@ -310,7 +310,7 @@ def _goals_for(rng, monom, lb, tier, max_order):
     rng.shuffle(orders)
     for k in sorted(orders[: rng.choice([1, 2, 2, 3])]):
         goals.append({"type": "cumulant", "k": k})
-    if rng.random() < 0.25:
+    if rng.random() < 0.15:
         goals.append({"type": "central", "k": 1})
     base = lb if lb is not None else 1
     a_up = F(base) + rng.choice([F(1, 2), 1, 2, 3, 5, F(7, 2)])
@@ -331,10 +331,10 @@ def template_case(cs, tier, idx):
     d = t(rng)
     monom, lb = rng.choice(d["monoms"]) if idx >= len(TEMPLATES) else d["monoms"][0]
     N = 6 if tier == "quick" else 9
-    goals = _goals_for(rng, monom, lb, tier, 4 if tier == "quick" else 6)
+    goals = _goals_for(rng, monom, lb, tier, min(d.get("max_order", 6), 4 if tier == "quick" else 6))
     return {"id": f"prog-{t.__name__}-{cs}", "kind": "prog", "src": "template", "template": t.__name__, "text": d["text"],
             "monom": monom, "goals": goals, "N": N, "params": {k: fe(v) for k, v in d.get("params", {}).items()},
-            "inits": {}, "features": d["feats"], "cli": (idx % 3 == 0), "at_n": rng.randint(0, N)}
+            "inits": {}, "features": d["feats"], "cli": d.get("cli", idx % 3 == 0), "at_n": rng.randint(0, N)}
 
 
 def generated_case(cs, tier, idx):
@@ -342,7 +342,7 @@ def generated_case(cs, tier, idx):
     from . import programs as G
     from ..lang.printer import program_str
     rng = random.Random(cs)
-    profile = rng.choice(["discrete", "discrete", "guarded", "symbolic", "nested"])
+    profile = rng.choice(["discrete", "discrete", "discrete", "symbolic", "nested", "multiassign", "guarded"])
     prog, feats, meta = G.generate(cs, profile)
     params, inits = G.instantiate_params(rng, meta, prog)
     data = meta["data"] or list(meta["fin"].keys())
